@@ -123,6 +123,22 @@ def generate(tier, rng):
                 # (a clashing dimension has the letter of one in the set but another name and other items)
                 ops.append(dict(op="expand", i=i, ds=[[m, m in "ab" and rng.random() < 0.25] for m in rng.sample(letters, rng.randint(0, 2))], inplace=ip))
         cases.append(dict(stream="history", ops=ops, twins=tw))
+    # directed histories: a dimension is dropped in place and ANOTHER dimension with the same letter (other name, other items) is put
+    # in its place by the next in-place call (expand / append / insert), with and without further steps in between
+    for first in (["c", "a"], ["a"], ["c", "d", "b"], ["b", "c"], ["c", "a", "d"]):
+        for l in [x for x in first if x in "ab"]:
+            pos = first.index(l)
+            for put in ("expand", "append", "insert"):
+                for between in ([], [dict(op="drop", i=0, key=["L", "c"], inplace=True)] if "c" in first and first.index("c") < pos else []):
+                    ops = [dict(op="new", dims=[[m, False] for m in first]), dict(op="drop", i=0, key=["L", l], inplace=True)] + list(between)
+                    if put == "expand":
+                        ops.append(dict(op="expand", i=0, ds=[[l, True]] + ([["c", False]] if between else []), inplace=True))
+                    elif put == "append":
+                        ops.append(dict(op="append", i=0, d=[l, True], inplace=True))
+                    else:
+                        ops.append(dict(op="insert", i=0, pos=pos, d=[l, True], inplace=True))
+                    ops.append(dict(op="copy", i=0))
+                    cases.append(dict(stream="history", ops=ops, twins=False))
     return cases
 
 
@@ -135,6 +151,61 @@ def snapshot(pool):
     sets = [obs_dims(p) for p in pool]
     share = [[i, j] for i in range(len(pool)) for j in range(i + 1, len(pool)) if pool[i].dim_list is pool[j].dim_list]
     return dict(sets=sets, share=share)
+
+
+def _exec_op(fd, pool, o):
+    """carry out one operation of a history on the pool; returns the result (None for in-place calls)"""
+    k = o["op"]
+    r = None
+    if k == "new":
+        r = fd.DimensionSet(dim_list=[fl_dim(D(l, c)) for l, c in o["dims"]])
+    else:
+        a = pool[o["i"]]
+        other = fl_dim(D(*o["od"])) if "od" in o else (pool[o["j"]] if "j" in o else None)
+        if k == "union":
+            r = a | other
+        elif k == "inter":
+            r = a & other
+        elif k == "diff":
+            r = a - other
+        elif k == "xor":
+            r = a ^ other
+        elif k == "add":
+            r = a + other
+        elif k == "subset":
+            ks_ = None if o["keys"] is None else tuple(_key(x) for x in o["keys"])
+            st_ = o.get("style")
+            arg = ks_ if st_ in (None, "tuple") or ks_ is None else (list(ks_) if st_ == "list" else (iter(ks_) if st_ == "iter" else (q for q in ks_)))
+            r = a.get_subset() if ks_ is None else a.get_subset(arg)
+        elif k == "copy":
+            r = a.copy()
+        elif k == "arrayof":
+            r = fd.FlodymArray(dims=a).dims
+        elif k == "append":
+            r = a.append(fl_dim(D(*o["d"])), inplace=o["inplace"])
+        elif k == "prepend":
+            r = a.prepend(fl_dim(D(*o["d"])), inplace=o["inplace"])
+        elif k == "insert":
+            r = a.insert(o["pos"], fl_dim(D(*o["d"])), inplace=o["inplace"])
+        elif k == "drop":
+            r = a.drop(_key(o["key"]), inplace=o["inplace"])
+        elif k == "replace":
+            r = a.replace(_key(o["key"]), fl_dim(D(*o["d"])), inplace=o["inplace"])
+        elif k == "expand":
+            r = a.expand_by([fl_dim(D(l, c)) for l, c in o["ds"]], inplace=o["inplace"])
+
+    return r
+
+
+def _full_obs(ds):
+    out = dict(dims=obs_dims(ds))
+    try:
+        out.update(shape=list(ds.shape), total=ds.total_size, letters=list(ds.letters), names=list(ds.names),
+                   contains={l: (l in ds) for l in LETTERS}, bypos=[ds[i].letter for i in range(len(ds))],
+                   bykey={l: [ds[l].letter, ds[l].name, ds.index(l), ds.size(l)] for l in ds.letters} | {nm: [ds[nm].letter, ds[nm].name] for nm in ds.names})
+    except Exception as e:  # noqa
+        out["error"] = repr(e)[:100]
+    return out
 
 
 def run_impl(case):
@@ -154,43 +225,9 @@ def run_impl(case):
         before = snapshot(pool)
         recv = None
         try:
-            if k == "new":
-                r = fd.DimensionSet(dim_list=[fl_dim(D(l, c)) for l, c in o["dims"]])
-            else:
-                a = pool[o["i"]]
+            if k != "new":
                 recv = o["i"]
-                other = fl_dim(D(*o["od"])) if "od" in o else (pool[o["j"]] if "j" in o else None)
-                if k == "union":
-                    r = a | other
-                elif k == "inter":
-                    r = a & other
-                elif k == "diff":
-                    r = a - other
-                elif k == "xor":
-                    r = a ^ other
-                elif k == "add":
-                    r = a + other
-                elif k == "subset":
-                    ks_ = None if o["keys"] is None else tuple(_key(x) for x in o["keys"])
-                    st_ = o.get("style")
-                    arg = ks_ if st_ in (None, "tuple") or ks_ is None else (list(ks_) if st_ == "list" else (iter(ks_) if st_ == "iter" else (q for q in ks_)))
-                    r = a.get_subset() if ks_ is None else a.get_subset(arg)
-                elif k == "copy":
-                    r = a.copy()
-                elif k == "arrayof":
-                    r = fd.FlodymArray(dims=a).dims
-                elif k == "append":
-                    r = a.append(fl_dim(D(*o["d"])), inplace=o["inplace"])
-                elif k == "prepend":
-                    r = a.prepend(fl_dim(D(*o["d"])), inplace=o["inplace"])
-                elif k == "insert":
-                    r = a.insert(o["pos"], fl_dim(D(*o["d"])), inplace=o["inplace"])
-                elif k == "drop":
-                    r = a.drop(_key(o["key"]), inplace=o["inplace"])
-                elif k == "replace":
-                    r = a.replace(_key(o["key"]), fl_dim(D(*o["d"])), inplace=o["inplace"])
-                elif k == "expand":
-                    r = a.expand_by([fl_dim(D(l, c)) for l, c in o["ds"]], inplace=o["inplace"])
+            r = _exec_op(fd, pool, o)
             ok, exc = True, None
         except Exception as e:  # noqa
             r, ok, exc = None, False, type(e).__name__
@@ -221,7 +258,17 @@ def run_impl(case):
         obs.append(dict(ok=ok, exc=exc, before=before, after=after, recv=recv, lookups=lookups, extra=extra))
         if len(pool) > 12:
             break
-    return dict(kind="dims-history", steps=steps, obs=obs)
+    # the same history once more on fresh objects, this time WITHOUT looking at the sets between the steps: what the sets are at
+    # the end does not depend on whether anybody asked them anything in between
+    pool2 = []
+    for o in steps:
+        try:
+            r = _exec_op(fd, pool2, o)
+        except Exception:  # noqa
+            r = None
+        if r is not None:
+            pool2.append(r)
+    return dict(kind="dims-history", steps=steps, obs=obs, seen_final=[_full_obs(x) for x in pool], blind_final=[_full_obs(x) for x in pool2])
 
 
 # ---- ordered-list oracle ---------------------------------------------------------------------------
@@ -296,6 +343,13 @@ def _expected(o, sets):
 
 
 def oracle(case, ob):
+    if ob.get("seen_final") is not None and ob["seen_final"] != ob["blind_final"]:
+        i = next((j for j, (x, y) in enumerate(zip(ob["seen_final"], ob["blind_final"])) if x != y), min(len(ob["seen_final"]), len(ob["blind_final"])))
+        x = ob["seen_final"][i] if i < len(ob["seen_final"]) else None
+        y = ob["blind_final"][i] if i < len(ob["blind_final"]) else None
+        diff = [k for k in (x or {}) if (y or {}).get(k) != x.get(k)] if x and y else ["number of sets"]
+        return (f"set #{i} answers differently at the end of the same history when nobody looked at the sets between the steps: {diff[:3]} "
+                f"(looked at: {[(x or {}).get(k) for k in diff[:2]]}, not looked at: {[(y or {}).get(k) for k in diff[:2]]})")
     for si, (o, s) in enumerate(zip(ob["steps"], ob["obs"])):
         tag = f"step {si} {o['op']}"
         b, a = s["before"]["sets"], s["after"]["sets"]
